@@ -153,13 +153,24 @@ Output file is an unaligned set of sequences in fasta.
 		phasedcodonseqs := align.NewSeqBag(align.UNKNOWN)
 		phasedseqsaa := align.NewSeqBag(align.UNKNOWN)
 
+		// The threads give their results in the order in which they finish.
+		// They are put back in the order of the input sequences, so that the
+		// output is the same whatever the number of threads.
+		results := make(map[string]align.PhasedSequence)
 		for p := range phased {
-			var stops []int
 			if p.Err != nil {
 				err = p.Err
 				io.LogError(p.Err)
 				return
 			}
+			results[p.NtSeq.Name()] = p
+		}
+		for _, inseq := range inseqs.Sequences() {
+			p, ok := results[inseq.Name()]
+			if !ok {
+				continue
+			}
+			var stops []int
 			if p.Removed {
 				fmt.Fprintf(logf, "%s\tN/A\tRemoved\tN/A\tN/A\tN/A\n", p.NtSeq.Name())
 			} else {
